@@ -1595,6 +1595,11 @@ def _extract_diagonal(
             # Check if any of the expressions contains sympy.physics.quantum.Operator
             if operators:
                 eigs = [NumberOrderedForm.from_expr(eig).simplify() for eig in eigs]
+            else:
+                # Equal eigenvalues are recognized by comparing expressions, bring
+                # them to a canonical form (e.g. after a change of basis with
+                # complex eigenvectors they contain unevaluated products).
+                eigs = [sympy.expand(eig) for eig in eigs]
             eigs = np.array(eigs, dtype=object)
         diags.append(eigs)
 
